@@ -21,15 +21,18 @@ theorem EdgesPre.mem {s : St} {es : List Edge} (h : EdgesPre P X s es) {e : Edge
   ⟨h.1 e he, fun h0 => h.2 ⟨e, he, h0⟩⟩
 
 theorem BlkEq.push {s : St} {g : Grp} (hg : ∀ cs, g ≠ .block cs) (s' : St)
-    (e1 : s'.groups = s.groups.push g) (e2 : s'.stack = s.stack) : BlkEq s s' := by
-  refine ⟨e2, fun j cs => ?_⟩
-  rw [e1, Array.getElem?_push]
-  by_cases hj : j = s.groups.size
-  · simp only [hj, if_true]
-    constructor
-    · intro e; injection e with e; exact absurd e (hg cs)
-    · intro e; simp at e
-  · simp [hj]
+    (e1 : s'.groups = s.groups.push g) (e2 : s'.stack = s.stack) (e3 : s.nodes.size ≤ s'.nodes.size) :
+    BlkEq s s' := by
+  refine ⟨e2, fun j cs => ?_, by rw [e1]; simp, ?_, e3⟩
+  · rw [e1, Array.getElem?_push]
+    by_cases hj : j = s.groups.size
+    · simp only [hj, if_true]
+      constructor
+      · intro e; injection e with e; exact absurd e (hg cs)
+      · intro e; simp at e
+    · simp [hj]
+  · intro j i l t hgj
+    exact ⟨l, by rw [e1]; exact getElem?_push_lt' hgj⟩
 
 theorem spost_trans {s₁ s₂ u₁ u₂ t₁ t₂ : St} (e1 : SEq s₁ u₁) (e2 : SEq s₂ u₂) (hb : BlkEq s₁ u₁)
     (h : SPost P X u₁ u₂ ⟨⟩ t₁ ⟨⟩ t₂) : SPost P X s₁ s₂ ⟨⟩ t₁ ⟨⟩ t₂ :=
@@ -37,7 +40,7 @@ theorem spost_trans {s₁ s₂ u₁ u₂ t₁ t₂ : St} (e1 : SEq s₁ u₁) (e
 
 /-- one incoming edge of a `no_op` row -/
 theorem noopEdge_rel (ok : P.Ok) {s₁ s₂ : St} (h : Sim P X s₁ s₂) {g : Nat} (hdg : P.DG g) (htg : ¬ P.T g) (e : Edge)
-    (hF : e.from_ ≠ [] → e.from_ ∉ X.F) (hmr : e.from_ = [] → MR P s₁) :
+    (hF : e.from_ ≠ [] → e.from_ ∉ X.F) (hmr : e.from_ = [] → MR P s₁) (hrv : RV s₁) :
     rwp (noopEdge g e) (noopEdge (P.γ g) e) s₁ s₂ (SPost P X s₁ s₂) := by
   unfold noopEdge
   rw [rwp_bind]
@@ -74,17 +77,25 @@ theorem noopEdge_rel (ok : P.Ok) {s₁ s₂ : St} (h : Sim P X s₁ s₂) {g : N
           simp only [grefs, List.map_append, List.map_cons, List.map_nil, List.mem_append, List.mem_singleton] at hx
           rcases hx with hx | hx
           · exact h.1.ra g _ hdg htg hg x (by simpa [grefs] using hx)
-          · rw [hx]; exact (hj src rfl).2)
+          · rw [hx]; exact (hj src rfl).2.1)
         (by
           intro hhb hgb
           obtain ⟨c, cs, e'⟩ := h.1.bne hhb
           rw [← hgb, hg] at e'; cases e')
+        (by
+          have hw := h.1.wf g _ hg
+          refine ⟨fun i hi => hw.1 i (by cases router <;> simp [gnodes] at hi ⊢ <;> exact hi), ?_⟩
+          intro x hx
+          simp only [grefs, List.map_append, List.map_cons, List.map_nil, List.mem_append, List.mem_singleton] at hx
+          rcases hx with hx | hx
+          · exact hw.2 x (by simpa [grefs] using hx)
+          · rw [hx]; exact (hj src rfl).2.2 hrv)
       have em : mapGrpAt P g (.noop (parents ++ [(src, e.cond)]) router) =
           .noop (parents.map (fun p => (P.γ p.1, p.2)) ++ [(P.γ src, e.cond)]) (router.map P.ν) := by
         simp [mapGrpAt, mapGrp]
       rw [em] at a1
       have hblk : BlkEq s₁ { s₁ with groups := s₁.groups.setIfInBounds g (.noop (parents ++ [(src, e.cond)]) router) } :=
-        BlkEq.set hg (by intro cs e'; cases e') (by intro cs e'; cases e') _ rfl rfl
+        BlkEq.set hg (by intro cs e'; cases e') (by intro cs e'; cases e') (by intro i l t e'; cases e') _ rfl rfl (Nat.le_refl _)
       have hsim : Sim P X _ _ := ⟨a1, h.2.of_seq ⟨rfl, rfl, rfl⟩ ⟨rfl, rfl, rfl⟩⟩
       rw [rwp_bind, rwp_iff_wp, wp_setGrp]
       rw [wp_setGrp]
@@ -102,7 +113,7 @@ theorem noopEdge_rel (ok : P.Ok) {s₁ s₂ : St} (h : Sim P X s₁ s₂) {g : N
         subst n'; subst t₁; subst t₂
         rw [rwp_bind]
         refine rwp_of_run (fuelOf_run _) (fuelOf_run _) ?_
-        refine rwp_mono (addExit_srel ok hsim _ _ (hj src rfl).1 (hj src rfl).2 (.node n.uid) e.cond) ?_
+        refine rwp_mono (addExit_srel ok hsim _ _ (hj src rfl).1 (hj src rfl).2.1 (.node n.uid) e.cond) ?_
         intro _ t₁ _ t₂ hp
         refine spost_trans ?_ ?_ hblk hp
         · exact ⟨rfl, rfl, rfl⟩
@@ -110,19 +121,20 @@ theorem noopEdge_rel (ok : P.Ok) {s₁ s₂ : St} (h : Sim P X s₁ s₂) {g : N
 
 /-- scope-level loop: every iteration keeps `SPost` w.r.t. the start -/
 theorem srel_forM {β : Type} (l : List β) (f₁ f₂ : β → M PUnit) {s₁ s₂ : St} (h : Sim P X s₁ s₂)
-    (hf : ∀ x ∈ l, ∀ u₁ u₂, Sim P X u₁ u₂ → BlkEq s₁ u₁ → rwp (f₁ x) (f₂ x) u₁ u₂ (SPost P X u₁ u₂)) :
+    (hf : ∀ x ∈ l, ∀ u₁ u₂, Sim P X u₁ u₂ → BlkEq s₁ u₁ → SEq s₁ u₁ →
+      rwp (f₁ x) (f₂ x) u₁ u₂ (SPost P X u₁ u₂)) :
     rwp (l.forM f₁) (l.forM f₂) s₁ s₂ (SPost P X s₁ s₂) := by
   have := rwp_forM (fun t₁ t₂ => Sim P X t₁ t₂ ∧ SEq s₁ t₁ ∧ SEq s₂ t₂ ∧ BlkEq s₁ t₁) id l
     f₁ f₂ ?_ s₁ s₂ ⟨h, SEq.refl _, SEq.refl _, BlkEq.refl _⟩
   · rw [List.map_id] at this; exact this
   · intro x hx u₁ u₂ ⟨hu, e1, e2, hb⟩
-    refine rwp_mono (hf x hx u₁ u₂ hu hb) ?_
+    refine rwp_mono (hf x hx u₁ u₂ hu hb e1) ?_
     intro _ t₁ _ t₂ ⟨ht, e1', e2', hb'⟩
     exact ⟨ht, e1.trans e1', e2.trans e2', hb.trans hb'⟩
 
 /-- `_parse_noop_row` -/
 theorem parseNoop_rel (ok : P.Ok) {s₁ s₂ : St} (h : Sim P X s₁ s₂) (edges : List Edge) (rowId : Str)
-    (hpre : EdgesPre P X s₁ edges) :
+    (hpre : EdgesPre P X s₁ edges) (hrv : RV s₁) :
     rwp (parseNoop edges rowId) (parseNoop edges rowId) s₁ s₂ (fun _ t₁ _ t₂ =>
       Sim P X t₁ t₂ ∧ t₁.stack = s₁.stack ∧ MR P t₁ ∧ Eff P s₁ t₁) := by
   unfold parseNoop
@@ -131,26 +143,36 @@ theorem parseNoop_rel (ok : P.Ok) {s₁ s₂ : St} (h : Sim P X s₁ s₂) (edge
   have hd := h.1.gdom s₁.groups.size (Nat.le_refl _)
   have h0 : P.γ s₁.groups.size = s₂.groups.size := by simpa using h.1.gsync 0
   have a1 := h.1.addGrp (.noop [] none) (by intro i hi; simp [gnodes] at hi) (by intro x hx; simp [grefs] at hx)
-    (by intro x hx; simp [grefs] at hx)
+    (by intro x hx; simp [grefs] at hx) ⟨by intro i hi; simp [gnodes] at hi, by intro x hx; simp [grefs] at hx⟩
+  have hrv1 : RV { s₁ with groups := s₁.groups.push (.noop [] none) } := by
+    intro p hp
+    have := hrv p hp
+    simp; omega
   have hblk : BlkEq s₁ { s₁ with groups := s₁.groups.push (.noop [] none) } :=
-    BlkEq.push (by intro cs e; cases e) _ rfl rfl
+    BlkEq.push (by intro cs e; cases e) _ rfl rfl (Nat.le_refl _)
   have hsim : Sim P X { s₁ with groups := s₁.groups.push (.noop [] none) }
       { s₂ with groups := s₂.groups.push (.noop [] none) } :=
     ⟨a1, h.2.of_seq ⟨rfl, rfl, rfl⟩ ⟨rfl, rfl, rfl⟩⟩
   rw [rwp_bind]
   refine rwp_mono (srel_forM edges (noopEdge s₁.groups.size) (noopEdge s₂.groups.size) hsim ?_) ?_
-  · intro e he u₁ u₂ hu hb
+  · intro e he u₁ u₂ hu hb hse
     have hp := (hpre.of_blkEq (hblk.trans hb)).mem he
-    have := noopEdge_rel ok hu hd.1 hd.2 e hp.1 hp.2
+    have hrvu : RV u₁ := (Eff.of_blkEq (P := P) hb hse.2.1).rv hrv1
+    have := noopEdge_rel ok hu hd.1 hd.2 e hp.1 hp.2 hrvu
     rw [h0] at this
     exact this
   · intro _ u₁ _ u₂ ⟨hu, e1, e2, hb⟩
-    have := appendGroup_rel ok hu rowId hd.1 (fun ht => absurd ht hd.2)
+    have hltu : s₁.groups.size < u₁.groups.size := by
+      have := hb.2.2.1
+      simp at this; omega
+    have := appendGroup_rel ok hu rowId hd.1 hltu (fun ht => absurd ht hd.2)
     rw [h0] at this
     refine rwp_mono this ?_
-    intro _ t₁ _ t₂ ⟨ht, e3, _, _, hsb, hm⟩
+    intro _ t₁ _ t₂ ⟨ht, e3, _, _, hsb, hrvt, hhk, hm⟩
+    have ef1 : Eff P s₁ u₁ := Eff.of_blkEq (hblk.trans hb) e1.2.1
     exact ⟨ht, e3.trans e1.1, (hm hd.2).1, fun _ => (hm hd.2).1,
-      fun hcl => (hm hd.2).2 (hcl.of_blkEq (hblk.trans hb)), fun hs => hsb (hs.of_blkEq (hblk.trans hb))⟩
+      fun hcl => (hm hd.2).2 (ef1.cl hcl), fun hs => hsb (ef1.sb hs), fun hr => hrvt (ef1.rv hr),
+      ef1.hk.trans hhk⟩
 
 /-- one edge of a `go_to` row -/
 theorem gotoEdge_rel (ok : P.Ok) {s₁ s₂ : St} (h : Sim P X s₁ s₂) (ed : Edge × Str) (hd : ed.2 ∉ X.F)
@@ -189,7 +211,7 @@ theorem parseGoto_rel (ok : P.Ok) {s₁ s₂ : St} (h : Sim P X s₁ s₂) (r : 
   simp only []
   refine rwp_ite (fun _ => rwp_fail_left _ _ _ _ _) fun _ => ?_
   refine srel_forM _ gotoEdge gotoEdge h ?_
-  intro ed hed u₁ u₂ hu hb
+  intro ed hed u₁ u₂ hu hb _
   obtain ⟨he, hd⟩ := mem_zip_left hed
   have hp := (hpre.of_blkEq hb).mem he
   refine gotoEdge_rel ok hu ed ?_ hp.1 hp.2
@@ -212,7 +234,7 @@ theorem SSim.consAlias {s₁ s₂ : St} (h : SSim P X s₁ s₂) (id : Str) (hid
 theorem mergeRow_rel (ok : P.Ok) {s₁ s₂ : St} (h : Sim P X s₁ s₂) (r : Row) {ex : Nat} (hdx : P.DN ex) (act : Str)
     (hpre : EdgesPre P X s₁ r.edges) :
     rwp (mergeRow r ex act) (mergeRow r (P.ν ex) act) s₁ s₂ (fun _ t₁ _ t₂ =>
-      Sim P X t₁ t₂ ∧ BlkEq s₁ t₁) := by
+      Sim P X t₁ t₂ ∧ BlkEq s₁ t₁ ∧ (RV s₁ → RV t₁)) := by
   unfold mergeRow
   match hre : r.edges with
   | [] => exact rwp_fail_left _ _ _ _ _
@@ -274,7 +296,7 @@ theorem mergeRow_rel (ok : P.Ok) {s₁ s₂ : St} (h : Sim P X s₁ s₂) (r : R
         | true =>
           simp only [if_true]
           rw [rwp_pure]
-          exact ⟨⟨a1, h.2.of_seq ⟨rfl, rfl, rfl⟩ ⟨rfl, rfl, rfl⟩⟩, BlkEq.of_groups rfl rfl⟩
+          exact ⟨⟨a1, h.2.of_seq ⟨rfl, rfl, rfl⟩ ⟨rfl, rfl, rfl⟩⟩, (by apply BlkEq.of_groups <;> first | rfl | simp), fun hr => hr⟩
         | false =>
           simp only [Bool.false_eq_true, if_false]
           rw [rwp_bind]
@@ -291,10 +313,16 @@ theorem mergeRow_rel (ok : P.Ok) {s₁ s₂ : St} (h : Sim P X s₁ s₂) (r : R
             · rw [h.2.ri e.from_ g0 (hp.1 he0) hl]
               simp only []
               rw [rwp_iff_wp, wp_modify, wp_modify]
-              refine ⟨⟨a1.congr rfl rfl rfl rfl rfl rfl rfl rfl rfl rfl, ?_⟩, BlkEq.of_groups rfl rfl⟩
-              have hidne : r.rowId ≠ [] := by intro e'; rw [e'] at hid; cases hid
-              exact h.2.consAlias r.rowId hidne (h.2.riDG _ hm) (fun ht => hp.1 he0 (h.2.rl _ hm ht)) _ _
-                rfl rfl rfl rfl rfl rfl
+              refine ⟨⟨a1.congr rfl rfl rfl rfl rfl rfl rfl rfl rfl rfl, ?_⟩,
+                (by apply BlkEq.of_groups <;> first | rfl | simp), ?_⟩
+              · have hidne : r.rowId ≠ [] := by intro e'; rw [e'] at hid; cases hid
+                exact h.2.consAlias r.rowId hidne (h.2.riDG _ hm) (fun ht => hp.1 he0 (h.2.rl _ hm ht)) _ _
+                  rfl rfl rfl rfl rfl rfl
+              · intro hr p hp
+                simp only [List.mem_cons] at hp
+                rcases hp with hp | hp
+                · rw [hp]; exact hr (e.from_, g0) hm
+                · exact hr p hp
       · have hne' : P.ν en ≠ P.ν ex := fun e' => hne (ok.hν e')
         rw [if_pos hne]
         exact rwp_fail_left _ _ _ _ _
@@ -340,7 +368,8 @@ theorem newRow_rel (ok : P.Ok) {s₁ s₂ : St} (h : Sim P X s₁ s₂) (r : Row
   have a1 := (bump_asim a0 k1).addNode n
   dsimp only at a1 ⊢
   have hs1 : Sim P X _ _ := ⟨a1, h.2.of_seq ⟨rfl, rfl, rfl⟩ ⟨rfl, rfl, rfl⟩⟩
-  have hb1 : BlkEq s₁ { s₁ with next := s₁.next + k0 + k1, nodes := s₁.nodes.push n } := BlkEq.of_groups rfl rfl
+  have hb1 : BlkEq s₁ { s₁ with next := s₁.next + k0 + k1, nodes := s₁.nodes.push n } :=
+    (by apply BlkEq.of_groups <;> first | rfl | simp)
   have h0 : P.ν s₁.nodes.size = s₂.nodes.size := by simpa using h.1.nsync 0
   have hdi : P.DN s₁.nodes.size := h.1.ndom _ (Nat.le_refl _)
   rw [rwp_bind, rwp_iff_wp, wp_addNode]
@@ -350,28 +379,33 @@ theorem newRow_rel (ok : P.Ok) {s₁ s₂ : St} (h : Sim P X s₁ s₂) (r : Row
   intro _ u₁ _ u₂ ⟨hu, e1, e2, hb⟩
   have hdg := hu.1.gdom u₁.groups.size (Nat.le_refl _)
   have hg0 : P.γ u₁.groups.size = u₂.groups.size := by simpa using hu.1.gsync 0
+  have hnlt : s₁.nodes.size < u₁.nodes.size := by
+    have := hb.2.2.2.2
+    simp at this; omega
   have a2 := hu.1.addGrp (.row [s₁.nodes.size] r.type)
     (by intro i hi; simp only [gnodes, List.mem_singleton] at hi; rw [hi]; exact hdi)
     (by intro x hx; simp [grefs] at hx) (by intro x hx; simp [grefs] at hx)
+    ⟨by intro i hi; simp only [gnodes, List.mem_singleton] at hi; rw [hi]; exact hnlt,
+      by intro x hx; simp [grefs] at hx⟩
   have em : mapGrp P (.row [s₁.nodes.size] r.type) = .row [s₂.nodes.size] r.type := by
     simp [mapGrp, h0]
   rw [em] at a2
   have hs2 : Sim P X _ _ := ⟨a2, hu.2.of_seq ⟨rfl, rfl, rfl⟩ ⟨rfl, rfl, rfl⟩⟩
   have hb2 : BlkEq u₁ { u₁ with groups := u₁.groups.push (.row [s₁.nodes.size] r.type) } :=
-    BlkEq.push (by intro cs e; cases e) _ rfl rfl
+    BlkEq.push (by intro cs e; cases e) _ rfl rfl (Nat.le_refl _)
   rw [rwp_bind, rwp_iff_wp, wp_addGrp]
   rw [wp_addGrp]
   rw [rwp_bind]
-  have hap := appendGroup_rel ok hs2 r.rowId hdg.1 (fun ht => absurd ht hdg.2)
+  have hap := appendGroup_rel ok hs2 r.rowId hdg.1 (by simp) (fun ht => absurd ht hdg.2)
   rw [hg0] at hap
   refine rwp_mono hap ?_
-  intro _ v₁ _ v₂ ⟨hv, e3, e4, e5, hsb, hm⟩
+  intro _ v₁ _ v₂ ⟨hv, e3, e4, e5, hsb, hrvt, hhk, hm⟩
   rw [rwp_iff_wp, wp_modify, wp_modify]
   have hbb : BlkEq s₁ { u₁ with groups := u₁.groups.push (.row [s₁.nodes.size] r.type) } :=
     (hb1.trans hb).trans hb2
   have hst : v₁.stack = s₁.stack := by rw [e3]; exact e1.1
   refine ⟨⟨hv.1.congr rfl rfl rfl rfl rfl rfl rfl rfl rfl rfl,
-    hv.2.consName nodeName hdi _ _ rfl rfl rfl rfl rfl (by rw [h0])⟩, hst, ?_, ?_, ?_, ?_⟩
+    hv.2.consName nodeName hdi _ _ rfl rfl rfl rfl rfl (by rw [h0])⟩, hst, ?_, ?_, ?_, ?_, ?_, ?_⟩
   · have := (hm hdg.2).1
     intro x hx; exact this x hx
   · intro _
@@ -383,6 +417,13 @@ theorem newRow_rel (ok : P.Ok) {s₁ s₂ : St} (h : Sim P X s₁ s₂) (r : Row
   · intro hs
     have := hsb (hs.of_blkEq hbb)
     intro b hb; exact this b hb
+  · intro hr
+    have ef : Eff P s₁ { u₁ with groups := u₁.groups.push (.row [s₁.nodes.size] r.type) } :=
+      Eff.of_blkEq hbb e1.2.1
+    have := hrvt (ef.rv hr)
+    intro p hp; exact this p hp
+  · have h1 := (HeadKeep.of_blkEq hbb).trans hhk
+    exact ⟨fun j i l t hg => h1.1 j i l t hg, fun j c cs hg => h1.2.1 j c cs hg, h1.2.2⟩
 
 /-- an action row -/
 theorem actionRow_rel (ok : P.Ok) {s₁ s₂ : St} (h : Sim P X s₁ s₂) (r : Row)
@@ -420,8 +461,8 @@ theorem actionRow_rel (ok : P.Ok) {s₁ s₂ : St} (h : Sim P X s₁ s₂) (r : 
         simp only []
         have hdx : P.DN p.2 := h.2.nmDN p (List.mem_of_find?_eq_some hf)
         refine rwp_mono (mergeRow_rel ok h r hdx act hpre) ?_
-        intro _ t₁ _ t₂ ⟨ht, hb⟩
-        refine ⟨ht, hb.1, Eff.of_blkEq hb, ?_⟩
+        intro _ t₁ _ t₂ ⟨ht, hb, hrv'⟩
+        refine ⟨ht, hb.1, Eff.of_blkEq' hb hrv', ?_⟩
         intro h1 h2
         exfalso
         apply hne'
